@@ -256,6 +256,21 @@ Lemma get_response_writer_first fe fl u :
   else match u with Some w' => get_response_writer w' | None => None end.
 Proof. reflexivity. Qed.
 
+(* the writer used is the outermost layer of the Unwrap chain that can flush at all; its flush
+   errors come back iff that layer has FlushError *)
+Lemma get_response_writer_chain : forall w,
+  get_response_writer w =
+  match find (fun l : bool * bool => fst l || snd l) (chain w) with
+  | Some (true, _) => Some RWFlushError
+  | Some (false, _) => Some RWFlusher
+  | None => None
+  end.
+Proof.
+  fix IH 1. intros [fe fl u]. cbn [get_response_writer chain find fst snd].
+  destruct fe; [reflexivity|]. destruct fl; [reflexivity|]. cbn [orb].
+  destruct u as [w'|]; [apply IH|reflexivity].
+Qed.
+
 Lemma upgrade_id_expected h : upgrade_id h = expected_lei h.
 Proof.
   destruct h as [|v t]; [reflexivity|]. cbn [upgrade_id expected_lei].
